@@ -737,19 +737,37 @@ func indexPhi(f *ssa.Function, s ssa.Value) (*ssa.Phi, bool) {
 }
 
 func stepOf(phi *ssa.Phi) (int64, bool) {
-	for _, e := range phi.Edges {
-		if b, ok := e.(*ssa.BinOp); ok && b.X == ssa.Value(phi) {
-			if k, isK := core.ConstInt(b.Y); isK {
-				if b.Op == token.ADD {
-					return k, true
-				}
-				if b.Op == token.SUB {
-					return -k, true
-				}
-			}
+	// every back edge must carry phi +/- the same constant: a path around the
+	// loop that leaves the counter unchanged (a `continue` in front of the
+	// increment) or changes it differently is not a counted loop
+	h := phi.Block()
+	step, n := int64(0), 0
+	for i, e := range phi.Edges {
+		if !h.Dominates(h.Preds[i]) {
+			continue
 		}
+		b, ok := e.(*ssa.BinOp)
+		if !ok || b.X != ssa.Value(phi) {
+			return 0, false
+		}
+		k, isK := core.ConstInt(b.Y)
+		if !isK {
+			return 0, false
+		}
+		switch b.Op {
+		case token.ADD:
+		case token.SUB:
+			k = -k
+		default:
+			return 0, false
+		}
+		if n > 0 && k != step {
+			return 0, false
+		}
+		step = k
+		n++
 	}
-	return 0, false
+	return step, n > 0
 }
 
 func ascendingOver(f *ssa.Function, s ssa.Value) bool {
